@@ -525,7 +525,12 @@ class IntegerFieldFormat(AbstractFieldFormat):
                 result = -(limit + 1)
             return result
 
-        if self.valid_range is None:
+        if (
+            (self.valid_range is None)
+            or (self.valid_range.lower_limit is None)
+            or (self.valid_range.upper_limit is None)
+        ):
+            # Without a lower or upper limit there is no number to derive a type from, use the default integer type.
             limit = None
         else:
             lower_limit = self.valid_range.lower_limit
